@@ -1143,11 +1143,10 @@ class Node:
         process_time = time.time() - recv_time
 
         if origin_host is not None:
-            if origin_host not in self._sent_answers:
-                self._sent_answers[origin_host] = deque(
-                    maxlen=self.retransmit_queue_size)
-
-            self._sent_answers[origin_host].append(
+            # answers are sent by application and connection threads alike:
+            # the window of an origin is created by exactly one of them
+            self._sent_answers.setdefault(
+                origin_host, deque(maxlen=self.retransmit_queue_size)).append(
                 message.header.end_to_end_identifier)
 
         self._origin_waiting_answer.pop(message_id, None)
